@@ -192,7 +192,12 @@ func runInner(c *fw.Ctx, outDir string, traced bool) error {
 				panic("c16 self-test: traced process dies")
 			}
 			c.Journal("session %d config=%s script=%s", s.N, cfgJSON, hex.EncodeToString(s.Script))
-			rec := w.runSession(j.spec, cfgJSON, h, s, func() { marker(-1, s.N) }, func() { marker(-2, s.N) })
+			var unload func()
+			if j.reloadFrom == nil && len(j.sess) == 1 {
+				// (the handler serves this one session: its configuration can be unloaded in the middle of it)
+				unload = func() { cancel(); cancel = func() {} }
+			}
+			rec := w.runSessionUnload(j.spec, cfgJSON, h, s, func() { marker(-1, s.N) }, func() { marker(-2, s.N) }, unload)
 			emit(rec)
 		}
 		cancel()
